@@ -1917,7 +1917,8 @@ INTRINSICS.update({'verifVar': lambda ex, st, a, c: Iface(-2, Opaque('var'))})
 def gadget_exec_stubs():
     A = 'github.com/reilabs/gnark-lean-extractor/v2/abstractor.'
     return {A + 'Call': abstractor_Call_exec(False), A + 'Call1': abstractor_Call_exec(True), A + 'Call2': abstractor_Call_exec(True), A + 'Call3': abstractor_Call_exec(True),
-            A + 'CallVoid': abstractor_Call_exec(False), 'prefix': [('opaque:api.', api_any)]}
+            A + 'CallVoid': abstractor_Call_exec(False), 'prefix': [('opaque:api.', api_any)],
+            'opaque:var.ConstantValue': lambda ex, st, a, c: (NIL, z3.BoolVal(False)), 'opaque:api.ConstantValue': lambda ex, st, a, c: (NIL, z3.BoolVal(False))}
 
 
 # ------------------------------------------------------------------------------------------ bufio writers/readers over token streams (C11)
